@@ -6,7 +6,9 @@ export GOFLAGS=-mod=mod GOPROXY=off GOSUMDB=off GOTOOLCHAIN=local
 VERIF=${VERIF:-/verif}
 REPO=${REPO:-/repo}
 mkdir -p "$VERIF/bin"
-OV="$VERIF/bin/overlay.json"
+TAGN=$(echo -n "$REPO" | md5sum | cut -c1-8)
+OUT="$VERIF/bin/harness"; [ "$REPO" = "/repo" ] || OUT="$VERIF/bin/harness-$TAGN"
+OV="$VERIF/bin/overlay-$TAGN.json"
 python3 - "$VERIF" "$REPO" > "$OV" <<'PY'
 import json,os,sys
 verif,repo=sys.argv[1],sys.argv[2]
@@ -23,4 +25,5 @@ for root,_,files in os.walk(base):
 print(json.dumps({"Replace":rep},indent=1))
 PY
 cd "$REPO"
-go build -tags verif -overlay "$OV" -o "$VERIF/bin/harness" ./verifharness/
+go build -tags verif -overlay "$OV" -o "$OUT" ./verifharness/
+echo "$OUT"
